@@ -1,8 +1,9 @@
 #!/bin/sh
 # thorough tier of one property: both-ways self-test of the checker on the
 # variant corpus (firing variants that name this property, and every silent
-# variant) and on the kept seeded changes that target it, then the check
-# itself on /repo under three load configurations. Scratch copies live under
+# variant), on the kept seeded changes that target it and on the
+# behaviour-preserving refactorings (which must all stay silent), then the
+# check itself on /repo under three load configurations. Scratch copies live under
 # mktemp directories and are removed.
 id="$1"
 cd "$(dirname "$0")/.." || exit 2
@@ -12,11 +13,13 @@ python3 tools/variants.py --props "$id" --for "$id" --json "$tmp/variants.json" 
 vrc=$?
 python3 tools/seeds.py --for "$id" --json "$tmp/seeds.json" > "$tmp/seeds.log" 2>&1
 src=$?
+python3 tools/refactors.py --for "$id" -j 4 --json "$tmp/refactors.json" > "$tmp/refactors.log" 2>&1
+rrc=$?
 python3 - "$tmp" <<'PY'
 import json, sys, os
 t = sys.argv[1]
 out = {}
-for n in ("variants", "seeds"):
+for n in ("variants", "seeds", "refactors"):
     try:
         out[n] = json.load(open(os.path.join(t, n + ".json")))
     except Exception as e:
@@ -25,9 +28,9 @@ json.dump(out, open(os.path.join(t, "selftest.json"), "w"))
 PY
 VERIF_SELFTEST="$tmp/selftest.json" bin/corscheck -property "$id" -tier thorough
 rc=$?
-if [ $rc -eq 0 ] && { [ $vrc -ne 0 ] || [ $src -ne 0 ]; }; then
+if [ $rc -eq 0 ] && { [ $vrc -ne 0 ] || [ $src -ne 0 ] || [ $rrc -ne 0 ]; }; then
   echo "SELFTEST-FAILED property=$id (the checker did not behave as expected on its variant corpus / seeded changes; see below)"
-  tail -5 "$tmp/variants.log" "$tmp/seeds.log"
+  tail -5 "$tmp/variants.log" "$tmp/seeds.log" "$tmp/refactors.log"
   exit 2
 fi
 exit $rc
